@@ -64,13 +64,13 @@ var targets = map[string]map[string]bool{
 	"github.com/btcsuite/btcwallet/waddrmgr":     {},
 	"github.com/btcsuite/btcwallet/wtxmgr":       {},
 	"github.com/btcsuite/btcwallet/walletdb/bdb": {},
-	"github.com/btcsuite/btcwallet/chain":        {"queue.go": true},
+	"github.com/btcsuite/btcwallet/chain":        {"queue.go": true, "neutrino.go": true},
 	"go.etcd.io/bbolt":                           {},
 }
 
 // only these files of package chain are touched at all
 var onlyFiles = map[string]map[string]bool{
-	"github.com/btcsuite/btcwallet/chain": {"queue.go": true, "block_filterer.go": true},
+	"github.com/btcsuite/btcwallet/chain": {"queue.go": true, "block_filterer.go": true, "neutrino.go": true},
 }
 
 // packages in which `for ... range <map>` is rewritten to iterate in an order
@@ -370,7 +370,7 @@ func (in *inst) run() ([]byte, bool) {
 			in.stats[in.pkg.Name+".go"]++
 		case *ast.SendStmt:
 			if in.mediate && !in.skip[n] {
-				c.Replace(&ast.ExprStmt{X: call("Send", lit(in.site("send", n.Pos())), n.Chan, n.Value)})
+				c.Replace(&ast.ExprStmt{X: call("Send", lit(in.site("send", n.Pos())), n.Chan, in.sendValue(n.Chan, n.Value))})
 				in.changed = true
 				in.stats[in.pkg.Name+".send"]++
 			}
@@ -575,6 +575,24 @@ func (in *inst) mapRange(r *ast.RangeStmt, parent ast.Node) ast.Stmt {
 	return &ast.BlockStmt{List: append(pre, loop)}
 }
 
+// sendValue converts the value of a send to `any` when the channel's element
+// type is the empty interface, so that the generic helpers infer the
+// channel's element type and not the value's concrete type.
+func (in *inst) sendValue(ch, v ast.Expr) ast.Expr {
+	t := in.pkg.TypesInfo.TypeOf(ch)
+	if t == nil {
+		return v
+	}
+	c, ok := t.Underlying().(*types.Chan)
+	if !ok {
+		return v
+	}
+	if it, ok := c.Elem().Underlying().(*types.Interface); ok && it.Empty() {
+		return &ast.CallExpr{Fun: ast.NewIdent("any"), Args: []ast.Expr{v}}
+	}
+	return v
+}
+
 // selectStmt builds the switch over simrt.Select. Channel and value
 // expressions are evaluated once, in source order, as Go does.
 func (in *inst) selectStmt(s *ast.SelectStmt) ast.Stmt {
@@ -608,7 +626,7 @@ func (in *inst) selectStmt(s *ast.SelectStmt) ast.Stmt {
 			pre = append(pre, &ast.AssignStmt{Lhs: []ast.Expr{chv}, Tok: token.DEFINE, Rhs: []ast.Expr{c.Chan}})
 			// the value keeps its static type through a typed helper: SendCase converts
 			pre = append(pre, &ast.AssignStmt{Lhs: []ast.Expr{vv}, Tok: token.DEFINE,
-				Rhs: []ast.Expr{call("SendCase", ast.NewIdent(chv.Name), c.Value)}})
+				Rhs: []ast.Expr{call("SendCase", ast.NewIdent(chv.Name), in.sendValue(c.Chan, c.Value))}})
 			cases = append(cases, ast.NewIdent(vv.Name))
 		case *ast.ExprStmt:
 			u := ast.Unparen(c.X).(*ast.UnaryExpr)
@@ -634,6 +652,11 @@ func (in *inst) selectStmt(s *ast.SelectStmt) ast.Stmt {
 	hd := "false"
 	if hasDefault {
 		hd = "true"
+	} else {
+		// Select returns -1 only when there is a default clause; the clause
+		// keeps a select whose cases all return a terminating statement
+		clauses = append(clauses, &ast.CaseClause{List: nil, Body: []ast.Stmt{use(),
+			&ast.ExprStmt{X: &ast.CallExpr{Fun: ast.NewIdent("panic"), Args: []ast.Expr{lit("verifsimrt: select without default returned no clause")}}}}})
 	}
 	args := append([]ast.Expr{lit(in.site("select", s.Pos())), ast.NewIdent(hd)}, cases...)
 	sw := &ast.SwitchStmt{
